@@ -128,20 +128,22 @@ func (im *impl) do(op, arg string) (string, error) {
 		id64, _ := strconv.ParseUint(arg, 10, 32)
 		id := uint32(id64)
 		if im.mux != nil {
-			go func() {
+			go k.Trap(func() {
 				conn, err := im.mux.Accept(id)
 				k.W.Note("ret", fmt.Sprintf("plugin.Accept(%d)", id), errStr(err))
 				if err != nil {
 					return
 				}
 				ServeEcho(conn, id)
-			}()
+			})
 			return "", nil
 		}
-		go im.grpcb.AcceptAndServe(id, func(opts []grpc.ServerOption) *grpc.Server {
-			s := grpc.NewServer(opts...)
-			grpctest.RegisterPingPongServer(s, &PingPong{Msg: fmt.Sprintf("id=%d", id), Sh: im.sh})
-			return s
+		go k.Trap(func() {
+			im.grpcb.AcceptAndServe(id, func(opts []grpc.ServerOption) *grpc.Server {
+				s := grpc.NewServer(opts...)
+				grpctest.RegisterPingPongServer(s, &PingPong{Msg: fmt.Sprintf("id=%d", id), Sh: im.sh})
+				return s
+			})
 		})
 		return "", nil
 	case "acceptwait":
@@ -156,7 +158,7 @@ func (im *impl) do(op, arg string) (string, error) {
 		if err != nil {
 			return "", err
 		}
-		go ServeEcho(conn, id)
+		go k.Trap(func() { ServeEcho(conn, id) })
 		return "ok", nil
 	case "acceptown":
 		// Accept(id) and serve on the listener with a server of our own that can be stopped again
@@ -176,7 +178,7 @@ func (im *impl) do(op, arg string) (string, error) {
 		}
 		im.own[id] = srv
 		im.kmu.Unlock()
-		go srv.Serve(ln)
+		go k.Trap(func() { srv.Serve(ln) })
 		return "", nil
 	case "stopown":
 		id64, _ := strconv.ParseUint(arg, 10, 32)
@@ -215,11 +217,11 @@ func (im *impl) do(op, arg string) (string, error) {
 		if err != nil {
 			return "", err
 		}
-		go func() {
+		go k.Trap(func() {
 			s := grpc.NewServer(ServerOptsFor(im.grpcb)...)
 			grpctest.RegisterPingPongServer(s, &PingPong{Msg: fmt.Sprintf("id=%d", id), Sh: im.sh})
 			s.Serve(ln)
-		}()
+		})
 		return "", nil
 	case "dialkeep":
 		// dial, ping once, keep the connection for later "reping"
